@@ -8,6 +8,9 @@ use serde::{Deserialize, Serialize};
 #[derive(Clone, Debug, Serialize, Deserialize)]
 pub enum D {
     Rule(String, Vec<D>),
+    /// a selector list written over several lines in the indented syntax; the u8 picks what follows
+    /// each line-ending comma there (nothing, blanks, a tab, a silent comment)
+    RuleLines(Vec<String>, u8, Vec<D>),
     Decl(String, String),
     Silent(String),
     Loud(String),
@@ -40,6 +43,12 @@ fn body(c: &mut Chooser, depth: usize, in_rule: bool, nmix: usize) -> Vec<D> {
             2 => D::Silent(c.of(TEXTS).to_string()),
             3 => D::Loud(c.of(TEXTS).to_string()),
             4 => D::Var(format!("w{}", c.pick(3)), c.of(&["1", "2px", "a"]).to_string()),
+            5 if c.pick(3) == 0 => {
+                let n = 2 + c.pick(2);
+                let parts: Vec<String> = (0..n).map(|_| if in_rule { c.of(&["a", ".b", "&:hover", ".x &", "&-s", "ul li", "a > b"]).to_string() } else { c.of(&["a", ".b", "#c", "a > b", "ul li"]).to_string() }).collect();
+                let k = c.pick(6) as u8;
+                D::RuleLines(parts, k, body(c, depth + 1, true, nmix))
+            }
             5 => {
                 let sel = if in_rule { c.of(SELS).to_string() } else { c.of(&["a", ".b", "#c", "a > b", "a, b", "ul li"]).to_string() };
                 D::Rule(sel, body(c, depth + 1, true, nmix))
@@ -86,6 +95,11 @@ fn p_scss(v: &[D], ind: usize, out: &mut String) {
                 p_scss(b, ind + 1, out);
                 out.push_str(&format!("{}}}\n", pad));
             }
+            D::RuleLines(parts, _, b) => {
+                out.push_str(&format!("{}{} {{\n", pad, parts.join(", ")));
+                p_scss(b, ind + 1, out);
+                out.push_str(&format!("{}}}\n", pad));
+            }
             D::Decl(p, val) => out.push_str(&format!("{}{}: {};\n", pad, p, val)),
             D::Silent(t) => out.push_str(&format!("{}// {}\n", pad, t)),
             D::Loud(t) => out.push_str(&format!("{}/* {} */\n", pad, t)),
@@ -125,6 +139,17 @@ fn p_sass(v: &[D], ind: usize, out: &mut String) {
                 out.push_str(&format!("{}{}\n", pad, s));
                 p_sass(b, ind + 1, out);
             }
+            D::RuleLines(parts, k, b) => {
+                let trail = ["", " ", "\t", "  ", " // note", " // a, b"][*k as usize % 6];
+                for (i, part) in parts.iter().enumerate() {
+                    if i + 1 < parts.len() {
+                        out.push_str(&format!("{}{},{}\n", pad, part, trail));
+                    } else {
+                        out.push_str(&format!("{}{}\n", pad, part));
+                    }
+                }
+                p_sass(b, ind + 1, out);
+            }
             D::Decl(p, val) => out.push_str(&format!("{}{}: {}\n", pad, p, val)),
             D::Silent(t) => out.push_str(&format!("{}// {}\n", pad, t)),
             D::Loud(t) => out.push_str(&format!("{}/* {} */\n", pad, t)),
@@ -158,7 +183,7 @@ fn fill(v: &mut Vec<D>) {
     }
     for d in v.iter_mut() {
         match d {
-            D::Rule(_, b) | D::Each(_, b) | D::Media(_, b) => fill(b),
+            D::Rule(_, b) | D::RuleLines(_, _, b) | D::Each(_, b) | D::Media(_, b) => fill(b),
             D::If(_, t, e) => {
                 fill(t);
                 if let Some(e) = e {
